@@ -3,6 +3,8 @@ package scenarios
 import (
 	"bytes"
 	"fmt"
+	"os"
+	"path/filepath"
 	"strings"
 	"sync/atomic"
 	"testing"
@@ -237,5 +239,60 @@ func TestDiscardAfterAFailedCommitLeavesAnOpenableDB(t *testing.T) {
 	}
 	if _, err := db.Get([]byte("k"), nil); err != leveldb.ErrNotFound {
 		t.Fatalf("write of the discarded transaction after reopen: %v", err)
+	}
+}
+
+// copyDir copies every file of a DB directory into a fresh directory: the disk as a crash at this instant leaves it
+// when everything written so far has reached it.
+func copyDir(t *testing.T, src string) string {
+	t.Helper()
+	dst := t.TempDir()
+	ents, err := os.ReadDir(src)
+	must(t, err)
+	for _, e := range ents {
+		if e.Name() == "LOCK" {
+			continue
+		}
+		data, err := os.ReadFile(filepath.Join(src, e.Name()))
+		must(t, err)
+		must(t, os.WriteFile(filepath.Join(dst, e.Name()), data, 0o644))
+	}
+	return dst
+}
+
+// What remains of known finding F14 after the repair F41: between the failed sync and the shut-down of the session the
+// manifest still holds the record of the commit that was reported as failed. A crash in that window, after the
+// transaction was discarded (its tables removed), leaves a DB that cannot be opened.
+func TestCrashAfterAFailedAndDiscardedCommitLeavesAnOpenableDB(t *testing.T) {
+	dir := t.TempDir()
+	disk, err := storage.OpenFile(dir, false)
+	must(t, err)
+	fs := newFaultStorage()
+	fs.Storage = disk
+	db, err := leveldb.Open(fs, &opt.Options{WriteBuffer: 64 * opt.KiB})
+	must(t, err)
+	must(t, db.Put([]byte("acknowledged"), []byte("v"), &opt.WriteOptions{Sync: true}))
+	tr, err := db.OpenTransaction()
+	must(t, err)
+	must(t, tr.Put([]byte("k"), bytes.Repeat([]byte{'x'}, 100), nil))
+	atomic.StoreInt32(fs.failSync[storage.TypeManifest], 3)
+	cerr := tr.Commit()
+	atomic.StoreInt32(fs.failSync[storage.TypeManifest], 0)
+	if cerr == nil {
+		t.Skip("the injected sync failures did not fail the commit")
+	}
+	tr.Discard()
+	imageDir := copyDir(t, dir) // the crash
+	defer db.Close()
+	image, err := storage.OpenFile(imageDir, false)
+	must(t, err)
+	defer image.Close()
+	db2, err := leveldb.Open(image, nil)
+	if err != nil {
+		t.Fatalf("open after a crash that followed a failed and discarded commit: %v", err)
+	}
+	defer db2.Close()
+	if v, err := db2.Get([]byte("acknowledged"), nil); err != nil || string(v) != "v" {
+		t.Fatalf("acknowledged write after the crash: %q, %v", v, err)
 	}
 }
